@@ -114,11 +114,12 @@ def terminal_roundtrip(S, center, fixed, nrect):
 
 
 @contract(P, functions=[W + "dump_yaml_edges", N + "yaml_read_netlist.parse_yaml_edges"],
-          params=[dict(pins=k, weight=w) for k in (2, 3) for w in ("none", "sym", "one")], budget_s=600)
+          params=[dict(pins=k, weight=w) for k in (2, 3, "repeated", "same_twice") for w in ("none", "sym", "one")], budget_s=600)
 def nets_roundtrip(S, pins, weight):
     names = ["A", "B", "C"]
     mods = {nm: soft_module(S, nm.lower(), "scalar", True) for nm in names}
-    net = names[:pins]
+    # a module may occur several times in a net (accepted by the reader; added after seed C04-12: the writer kept one entry per module)
+    net = ["A", "A", "B"] if pins == "repeated" else ["C", "C"] if pins == "same_twice" else names[:pins]
     if weight == "sym":
         net = net + [S.real("w", pos=True)]      # includes the value 1, which the writer omits
     elif weight == "one":
@@ -184,6 +185,8 @@ def _rand_doc(rng):
     nets = []
     for _ in range(rng.randint(0, 3)):
         e = rng.sample(names, rng.randint(2, min(4, len(names))))
+        if rng.random() < 0.25:     # the same module twice in a net
+            e.insert(rng.randrange(len(e) + 1), rng.choice(e))
         if rng.random() < 0.6:
             e.append(rng.choice([2, 0.5, 1, 1.0, num()]))
         nets.append(e)
